@@ -824,7 +824,7 @@ func kindsFor(thorough bool) []string {
 func run(c *h.Check) {
 	depth, pdepth := 4, 2
 	if c.Thorough() {
-		depth, pdepth = 5, 3
+		depth, pdepth = 6, 4
 	}
 	idx := 0
 	for _, k := range kindsFor(c.Thorough()) {
